@@ -18,6 +18,7 @@ class Compiled:
         self.inplace = cfg.get('inplace_vectorfield', True)
         self.labels = dict(getattr(circ, '_vectorization_labels', {}) or {})
         self.vidx = dict(getattr(circ, '_vectorization_indices', {}) or {})
+        self.labels_hint = {}
 
     # -- addressing ---------------------------------------------------------------------------
     def relabel(self, p):
@@ -30,8 +31,24 @@ class Compiled:
         idx = list(np.atleast_1d(idx))
         return [int(i) for i in idx]
 
+    def set_merge_hint(self, groups):
+        """groups: list of lists of frontend paths that the caller knows to be merged into one vector in this order
+        (needed when get_run_func(inputs=...) compiled an internal copy, so that the template object the caller
+        holds carries no vectorization bookkeeping)"""
+        for g in groups:
+            for i, p in enumerate(g):
+                if not self.vidx:
+                    pass
+                self.labels_hint[p] = (g[0], i)
+
     def position(self, p):
         """absolute position(s) of frontend state variable p in y -> list[int]"""
+        if p not in self.svm and p in self.labels_hint:
+            first, i = self.labels_hint[p]
+            rng = self.svm[first]
+            return [int(rng[0]) + i] if isinstance(rng, (tuple, list)) else [int(rng)]
+        if p in self.svm and p in self.labels_hint and isinstance(self.svm[p], (tuple, list)) and not self.vidx:
+            return [int(self.svm[p][0]) + self.labels_hint[p][1]]
         key = p if p in self.svm else self.relabel(p)
         if key not in self.svm:
             raise KeyError(p)
@@ -87,6 +104,10 @@ class Compiled:
         """evaluate the compiled function at state vector y (np array), optional {arg index: array}"""
         args = list(self.args)
         if t is not None:
+            # fixed-step convention: t is a step counter that starts at the returned args[0] (0, or 1 for the
+            # 1-based Fortran backend)
+            if self.cfg.get('solver', 'euler') in ('euler', 'heun') and not self.cfg.get('adaptive'):
+                t = t + int(np.asarray(to_np(self.args[0])).reshape(-1)[0])
             args[0] = self._conv(self.args[0], t)
         args[1] = self._conv(self.args[1], y)
         for ai, v in (params or {}).items():
